@@ -12,6 +12,7 @@ instrument constructed with the final parameters; range covers pixels/filters; b
 value*width == spectrum.integrate and == an exact rational integral of the interpolant).
 """
 import glob
+import re
 import json
 import math
 import os
@@ -114,6 +115,29 @@ class Enc:
 
 GETTERS = [("GetMin", "min_wavelength", "x"), ("GetMax", "max_wavelength", "x"), ("GetBins", "spectral_bins", "z"),
            ("GetKwargs", "pipeline_kwargs", "kw"), ("GetClasses", "pipeline_classes", "cl")]
+
+
+TRACE = {"kind": None, "steps": [], "init": None}     # what the case under construction has done so far
+CRASHES = []                                           # exceptions that escaped a case: recorded, reported, the run goes on
+
+
+def trace_start(kind, init=None, steps=None):
+    TRACE["kind"], TRACE["init"], TRACE["steps"] = kind, init, (steps if steps is not None else [])
+
+
+def safe_case(gen, *args):
+    """run one case generator (which drives the implementation); an exception of the implementation - or of the harness while
+    digesting the implementation's answer - on these VALID inputs is recorded with the history so far and the run continues"""
+    import traceback
+    trace_start(gen.__name__)
+    try:
+        return gen(*args)
+    except Exception as e:
+        tb = traceback.format_exc()
+        CRASHES.append({"kind": TRACE["kind"], "init": jsonable(TRACE["init"]), "history_so_far": [str(x)[:300] for x in TRACE["steps"]],
+                        "exception": "%s: %s" % (type(e).__name__, str(e)[:300]), "error_kind": err_kind(e),
+                        "where": [l.strip() for l in tb.strip().splitlines() if l.strip().startswith("File")][-3:], "traceback": tb[-2500:]})
+        return None
 
 
 def call(fn):
@@ -453,6 +477,7 @@ def sp_history(rng, mod, enc, quick):
     """returns dict(case=<coq term>, final=<tracked parameters>, inst=<mutated instrument>, meta=...)"""
     arrs, _ = gen_w2p(rng, allow_bad=False)
     w2p = form_w2p(rng, arrs)
+    trace_start("spectrometer", {"constructing with wavelength_to_pixel": arrs})
     mbpp = rng.randint(1, 10)
     name = rng.choice(NAMES)
     # constructor with default / keyword / positional arguments
@@ -474,6 +499,7 @@ def sp_history(rng, mod, enc, quick):
     cur = {"w2p": w2p, "arrs": arrs, "mbpp": mbpp, "name": name}
     past = {"w2p": [(w2p, arrs)], "mbpp": [mbpp], "name": [(name, name)]}
     ops, outs, log = [], ["OUnit"], []
+    trace_start("spectrometer", {"w2p": arrs, "mbpp": mbpp, "name": name}, log)
     stale_window = False     # a read happened and a setter followed: the situation the tests never reach
     read_seen = False
     for _ in range(rng.randint(2, 10 if quick else 16)):
@@ -779,6 +805,7 @@ def ct_history(rng, mod, enc, quick):
             break
     c["mbpp"] = rng.randint(1, 8)
     c["name"] = rng.choice(NAMES)
+    trace_start("czerny-turner", {"constructing with": c})
     r = rng.random()
     if r < 0.15:
         c["mbpp"], c["name"] = DEFAULTS[("CzernyTurnerSpectrometer", "min_bins_per_pixel")], DEFAULTS[("CzernyTurnerSpectrometer", "name")]
@@ -803,6 +830,7 @@ def ct_history(rng, mod, enc, quick):
     table = {}
     ct_table_add(table, mod, cur, cur["acc"])
     ops, outs, log, side = [], ["OUnit"], [], []
+    trace_start("czerny-turner", c, log)
     stale_window = read_seen = False
     for _ in range(rng.randint(2, 9 if quick else 14)):
         r = rng.random()
@@ -956,7 +984,16 @@ def gen_filter_spec(rng, around=None):
     for _ in range(n - 1):
         ws.append(ws[-1] + rng.choice([dyadic(rng, 0.25, 5, 4), rng.uniform(0.2, 5), float(rng.randint(1, 4))]))
     ws = [x * s for x in ws]
-    rng.shuffle(ws)
+    order = rng.choice(["sorted", "reversed", "shuffled", "shuffled", "largest first", "smallest last"])
+    STATS["filter nodes:" + order] += 1
+    if order == "reversed":
+        ws = ws[::-1]
+    elif order == "shuffled":
+        rng.shuffle(ws)
+    elif order == "largest first":
+        ws = [ws[-1]] + ws[:-1]
+    elif order == "smallest last":
+        ws = ws[1:] + [ws[0]]
     samples = [rng.choice([0.0, 0.5, 1.0, rng.uniform(0, 1)]) for _ in ws]
     k = rng.randrange(4)
     if k == 1:
@@ -1005,12 +1042,36 @@ def filter_case(rng, mod):
         if f.name != "f":
             impl = "(Err ErrOther)"
     return {"case": "filter_eqb (%s) %s" % (filter_model_txt(spec, 0, "f"), impl), "spec": spec,
-            "ok": st == "ok", "kind": "filter"}
+            "ok": st == "ok", "kind": "filter", "fails": filter_claims(spec, st, f)}
+
+
+def filter_claims(spec, st, f):
+    """executable statement for one filter: 'the range covers every ... filter' starts with the filter's own declared range
+    covering the nodes it was built from; window = max - min >= 0, central wavelength = midpoint"""
+    valid = spec[0] == "gen" and len(spec[1]) >= 1 and len(spec[1]) == len(spec[2])
+    if spec[0] == "trap":
+        c, w, ft = float(spec[1]), float(spec[2]), spec[3]
+        valid = c > 0 and w > 0 and (ft is None or not ft or 0 < float(ft) <= w)
+    if not valid:
+        return []
+    if st != "ok":
+        return ["constructing the filter from valid arguments raised %s" % f]
+    mn, mx, win, cen = float(f.min_wavelength), float(f.max_wavelength), float(f.window), float(f.central_wavelength)
+    nodes = [float(x) for x in spec[1]] if spec[0] == "gen" else [float(spec[1]) - 0.5 * float(spec[2]), float(spec[1]) + 0.5 * float(spec[2])]
+    fails = []
+    if not (mn <= min(nodes) and max(nodes) <= mx):
+        fails.append("declared range [%r, %r] of the filter does not cover its nodes [%r, %r]" % (mn, mx, min(nodes), max(nodes)))
+    if win != mx - mn or win < 0:
+        fails.append("window %r is not max - min = %r (or is negative)" % (win, mx - mn))
+    if cen != 0.5 * (mx + mn) or not (min(nodes) <= cen <= max(nodes)):
+        fails.append("central wavelength %r is not the midpoint of the nodes' range [%r, %r]" % (cen, min(nodes), max(nodes)))
+    return fails
 
 
 def pc_history(rng, mod, quick):
     # a pool of filter objects; the model gets the same filters through mk_trapezoid / mk_filter
     pool, fid = [], {}
+    trace_start("polychromator", "building the pool of filters")
     for i in range(rng.randint(2, 5)):
         around = None
         if pool and rng.random() < 0.35:
@@ -1019,6 +1080,7 @@ def pc_history(rng, mod, quick):
             STATS["filters:one encloses / shares an end with another"] += 1
         spec = gen_filter_spec(rng, around)
         name = rng.choice(["f%d" % i, "H-alpha filter", "CIII 465 nm", ""])
+        TRACE["steps"].append("build filter %r name=%r" % (spec, name))
         f = build_filter(mod, spec, name)
         pool.append((f, spec, name))
         fid[id(f)] = i
@@ -1067,6 +1129,7 @@ def pc_history(rng, mod, quick):
     cur = {"filters": fv, "fidx": fidx, "mbpw": mbpw, "name": name}
     past = {"filters": [(fv, ftx, fidx)], "mbpw": [mbpw], "name": [(name, name)]}
     ops, outs, log = [], ["OUnit"], []
+    trace_start("polychromator", {"pool": [(sp_, n_) for _, sp_, n_ in pool], "filters": fidx, "mbpw": mbpw, "name": name}, log)
     stale_window = read_seen = False
     for _ in range(rng.randint(2, 10 if quick else 16)):
         r = rng.random()
@@ -1508,6 +1571,16 @@ def long_cal_case(rng, mod, Spectrum, quick):
 
 
 # ---------------------------------------------------------------------------------------------
+def guarded_search(fn, h, *args):
+    """the executable property for one case; an exception while evaluating it on the implementation is a failed claim"""
+    try:
+        return fn(h, *args)
+    except Exception as e:
+        import traceback
+        return ["evaluating the property on the implementation raised %s: %s (%s)" % (
+            type(e).__name__, str(e)[:200], [l.strip() for l in traceback.format_exc().splitlines() if l.strip().startswith("File")][-1][:160])]
+
+
 def jsonable(o):
     if isinstance(o, dict):
         return {str(k): jsonable(v) for k, v in o.items()}
@@ -1586,17 +1659,25 @@ def run(ctx):
     QUICK[0] = quick
     # corpus of past disagreements first
     corpus = sorted(glob.glob(os.path.join(VERIF, "corpus", "C16", "*.json")))
+    CRASHES.clear()
+
+    def add(h):
+        if h is not None:
+            hist.extend(h if isinstance(h, list) else [h])
+
     for _ in range(n_sp):
-        hist.append(sp_history(rng, mod, enc0, quick))
+        add(safe_case(sp_history, rng, mod, enc0, quick))
     for _ in range(n_ct):
-        hist.append(ct_history(rng, mod, enc0, quick))
+        add(safe_case(ct_history, rng, mod, enc0, quick))
     for _ in range(n_pc):
-        hist.append(pc_history(rng, mod, quick))
-    while sum(1 for h in hist if h["kind"] == "calibrate") < n_cal:
-        hist += cal_cases(rng, mod, Spectrum, quick)
+        add(safe_case(pc_history, rng, mod, quick))
+    tries = 0
+    while sum(1 for h in hist if h["kind"] == "calibrate") < n_cal and tries < 4 * n_cal:
+        tries += 1
+        add(safe_case(cal_cases, rng, mod, Spectrum, quick))
     for _ in range(n_flt):
-        hist.append(filter_case(rng, mod))
-    long_cases = [long_cal_case(rng, mod, Spectrum, quick) for _ in range(30 if quick else 160)]
+        add(safe_case(filter_case, rng, mod))
+    long_cases = [h for h in (safe_case(long_cal_case, rng, mod, Spectrum, quick) for _ in range(30 if quick else 160)) if h is not None]
     hist.sort(key=lambda h: h["kind"] != "calibrate")     # the expensive files are compiled first (stable sort)
     ctx.log("generated %d cases (%d corpus files present)" % (len(hist), len(corpus)))
 
@@ -1647,14 +1728,16 @@ def run(ctx):
         if h["kind"] in ("spectrometer", "czerny-turner"):
             if len(h["cur"]["arrs"] if h["kind"] == "spectrometer" else h["cur"]["acc"]) == 0:
                 n_degenerate += 1
-            fl = sp_search(h, mod, enc0)
+            fl = guarded_search(sp_search, h, mod, enc0)
         elif h["kind"] == "polychromator":
-            fl = pc_search(h, mod)
+            fl = guarded_search(pc_search, h, mod)
             if fl is None:
                 n_degenerate += 1
                 continue
         elif h["kind"] == "calibrate":
-            fl = cal_search(h)
+            fl = guarded_search(cal_search, h)
+        elif h["kind"] == "filter":
+            fl = h["fails"]
         else:
             continue
         n_search += 1
@@ -1671,7 +1754,7 @@ def run(ctx):
         if h["kind"] == "calibrate":
             r = {k: h[k] for k in ("kind", "style", "samples", "w2p", "smin", "smax", "bins", "ys", "st", "val", "step", "scale")}
         if h["kind"] == "filter":
-            r = {"kind": "filter", "spec": h["spec"]}
+            r = {"kind": "filter", "spec": h["spec"], "how": "TrapezoidalFilter(c, window, flat_top) / PolychromatorFilter(wavelengths, samples)"}
         if "cur" in r:
             r["cur"] = {k: v for k, v in r["cur"].items() if k != "filters"}
         r["coq_case"] = h["case"][:4000]
@@ -1680,11 +1763,23 @@ def run(ctx):
     seen_keys = set()
     for i, msg in search_fails:
         h = hist[i]
-        key = "c16:%s:%s" % (h["kind"], msg.split(" of the ")[0].split(":")[0][:48])
+        key = "c16:%s:%s" % (h["kind"], re.sub(r"[-+]?[0-9][0-9.e+-]*", "#", msg.split(" of the ")[0].split(":")[0])[:48])
         if key in seen_keys or len(seen_keys) >= 5:
             continue
         seen_keys.add(key)
         ctx.violation(key, "%s: %s" % (h["kind"], msg), replay_of(h), found=True)
+    ctx.obligation("no exception escapes a case on valid inputs (%d cases generated, %d long rows)" % (len(hist), len(long_cases)),
+                   "search", not CRASHES, str([(c["kind"], c["exception"]) for c in CRASHES[:3]]))
+    seen_crash = set()
+    for c in CRASHES:
+        key = "c16:exception:%s:%s" % (c["kind"], c["exception"].split(":")[0])
+        if key in seen_crash or len(seen_crash) >= 4:
+            continue
+        seen_crash.add(key)
+        ctx.violation(key, "%s: the implementation (or digesting its answer) raised %s on a valid input after the history recorded in the replay; "
+                      "%d cases of this run ended this way" % (c["kind"], c["exception"], sum(1 for x in CRASHES if x["kind"] == c["kind"])),
+                      c, found=True)
+    search_fails = search_fails + [(None, c["exception"]) for c in CRASHES]
     seen_long = set()
     for h, f in long_fails:
         key = "c16:calibrate-long:%s" % f["claim"][:40]
@@ -1746,7 +1841,7 @@ def run(ctx):
                          "calibrate_alignment_styles": cal_styles,
                          "calibrate_error_cases(range too narrow)": sum(1 for h in cal if h["st"] == "err"),
                          "filter_error_cases": sum(1 for h in hist if h["kind"] == "filter" and not h["ok"]),
-                         "search_cases": n_search, "corpus_files": len(corpus),
+                         "search_cases": n_search, "corpus_files": len(corpus), "cases_that_raised_out_of_their_generator": len(CRASHES),
                          "long_calibrations(search only, not run through Coq)": {
                              "cases": len(long_cases), "pixels": sum(h["n_pixels"] for h in long_cases),
                              "measured_on_this_run: largest |value*width - integral| / (max sample * pixel width)":
